@@ -374,6 +374,20 @@ func (g *gen) genNew() {
 		// enum declared for a column that is not a string column: stays unconsumed -> error
 		enums[used[0]] = []string{"a"}
 	}
+	if !malformed && r.P(1, 20) {
+		// the only thing wrong with this construction: an enum declaration that names an int / float / bool column
+		for _, name := range used {
+			switch data[name].(type) {
+			case []int, []float64, []bool, qframe.ConstInt, qframe.ConstFloat, qframe.ConstBool:
+				if _, has := enums[name]; !has {
+					enums[name] = []string{"a"}
+				}
+			}
+			if len(enums) > 0 && r.Bool() {
+				break
+			}
+		}
+	}
 	toks = append(toks, "E", tx.Int(len(enums)))
 	ek := make([]string, 0, len(enums))
 	for k := range enums {
@@ -1079,6 +1093,15 @@ var fn2Catalogue = []fnEntry{
 		return strp(*x + *y)
 	}},
 	{"s.second", "se", func(x, y *string) *string { return y }},
+	{"s.coalesce", "se", func(x, y *string) *string {
+		if x != nil {
+			return x
+		}
+		if y != nil {
+			return y
+		}
+		return strp("n/a")
+	}},
 }
 
 type instr struct {
